@@ -1474,8 +1474,17 @@ func (t *TraefikOidc) RevokeToken(token string) {
 	// Remove from cache
 	t.tokenCache.Delete(token)
 
-	// Add to blacklist with default expiration
+	// Add to blacklist with default expiration; a token that stays valid for longer than
+	// that is kept on the list until it can no longer be accepted, otherwise it would
+	// verify again once the entry lapsed.
 	expiry := time.Now().Add(24 * time.Hour) // or other appropriate duration
+	if claims, err := extractClaims(token); err == nil {
+		if expClaim, ok := claims["exp"].(float64); ok {
+			if tokenEnd := time.Unix(saturatedUnixSeconds(expClaim), 0).Add(ClockSkewToleranceFuture); tokenEnd.After(expiry) {
+				expiry = tokenEnd
+			}
+		}
+	}
 	// Use Set with a duration. Value 'true' is arbitrary, we only care about existence.
 	t.tokenBlacklist.Set(token, true, time.Until(expiry))
 	t.logger.Debugf("Locally revoked token (added to blacklist)")
